@@ -155,6 +155,13 @@ func build(fields []modbus.Field, fc uint8, f spec.Framing, fluent bool, grow in
 			_ = in
 		}
 	}
+	{
+		// a second builder is alive and filled at the same time (a program with one builder per device): builders are independent
+		otherB := modbus.NewRequestBuilder("elsewhere:502", 9)
+		stranger := modbus.Field{Name: "stranger", ServerAddress: "elsewhere:502", UnitID: 9, Address: 4321, Type: modbus.FieldTypeUint64}
+		otherB.AddAll([]modbus.Field{stranger, stranger, stranger})
+		_, _ = otherB.ReadHoldingRegistersTCP()
+	}
 	if len(fields)%2 == 1 {
 		// the same builder may serve several request kinds: ask it for coil requests (and the other register function) first
 		_, _ = b.ReadCoilsTCP()
